@@ -303,7 +303,8 @@ def r6_bound_is_last_emitted(ctx):
         if fl and not any(e['k'] == 'index' for e in st['p']['pr']):
             t = peel(ff.expr_rvalue(st['r'], b, i))
             alts = [peel(x) for x in t[1]] if t[0] == 'phi' else [t]
-            if all(x[0] == 'call' and x[1] == L + '::front_time' for x in alts):
+            from .C01 import _node_time
+            if all(_node_time(x) is not None for x in alts):
                 emitted.add(fl[-1].get('n'))
     ctx.floor('fields fetch_next sets to the emitted timestamp', len(emitted), 1)
     ctx.check(guard <= emitted, 'guard-is-emitted-time',
